@@ -213,6 +213,12 @@ class TDS(BaseRoutine):
         system.store_no_check_init(models=system.exist.pflow_tds)
         system.vars_to_models()
 
+        # `set_address` gave every variable of `pflow_tds` a new array; models that take part in the power flow
+        # only are not initialized below, so refresh the inputs of their equation calls here
+        for mdl in system.exist.pflow_tds.values():
+            if not mdl.flags.tds:
+                mdl.get_inputs(refresh=True)
+
         system.init(system.exist.tds, routine='tds')
 
         self.fg_update(system.exist.tds, init=True)
